@@ -13,17 +13,18 @@ import (
 )
 
 type Ev struct {
-	fx       *FuncCtx
-	st       *State
-	contract bool
-	lookup   func(name string) (Val, bool) // contract mode
-	bound    map[string]Val
-	oldEv    *Ev
-	beforeEv *Ev
-	modKeys  []string // heap locations of the contract being evaluated (for onlyobjects)
-	info     *types.Info
-	pkg      *types.Package
-	nosafety bool
+	fx          *FuncCtx
+	st          *State
+	contract    bool
+	lookup      func(name string) (Val, bool) // contract mode
+	bound       map[string]Val
+	oldEv       *Ev
+	beforeEv    *Ev
+	loopEntryEv *Ev
+	modKeys     []string // heap locations of the contract being evaluated (for onlyobjects)
+	info        *types.Info
+	pkg         *types.Package
+	nosafety    bool
 }
 
 func (e *Ev) withPC(pc Term) *Ev {
